@@ -216,6 +216,33 @@ def model_res_obs(reply, conv, impl_obs):
 # ----------------------------------------------------------------------------- type specs
 # a type spec is JSON: ["bool"] | ["int"|"float", lo, hi, allow_none] | ["ints"|"floats", size, smin, smax, lo, hi, ne, ae]
 # bounds are Python source literals (or None), sizes ints (or None)
+def printable_bounds(ty):
+    """the bounds of the type are written back exactly by the printer: integral bounds for int / ints (printed with %d),
+    bounds of at most 10 significant digits for float / floats (printed with %.10g) - the domain of C01's stream; a bound
+    outside it (int(value_min=0.5), listed in DESIGN.md section 9) changes when the master is printed"""
+    k = ty[0]
+    if k == "bool":
+        return True
+    lo, hi = (ty[1], ty[2]) if k in ("int", "float") else (ty[4], ty[5])
+    for b in (lo, hi):
+        if b is None:
+            continue
+        try:
+            v = eval(str(b), {"__builtins__": {}}, {})
+        except Exception:  # noqa
+            return False
+        if k in ("int", "ints"):
+            if isinstance(v, float) and (v != v or v in (float("inf"), float("-inf")) or v != int(v)):
+                return False
+        else:
+            try:
+                if float("%.10g" % v) != float(v):
+                    return False
+            except (OverflowError, ValueError):
+                return False
+    return True
+
+
 def ty_text(ty):
     k = ty[0]
     if k == "bool":
@@ -593,7 +620,20 @@ class FromWords(Stream):
         if cps is None:
             import copy, pickle
             cps = self.copies[k2] = [pickle.loads(pickle.dumps(d)), copy.deepcopy(d)]
-        for how, d2 in zip(("pickle", "deepcopy"), cps):
+            # ... and after the master has been printed with its attributes and read again (phil --show_some_attributes,
+            # change_default_phil_values, a master kept as text): the declared type is what was declared
+            for lv in (2, 3):
+                if not printable_bounds(ty):
+                    cps.append(None)
+                    continue
+                try:
+                    m0 = self.fp.parse("%s = None\n.type = %s\n" % (PNAME, ty_text(ty)))
+                    cps.append(self.fp.parse(m0.as_str(attributes_level=lv)).objects[0])
+                except Exception:  # noqa   (a type expression the printer cannot write back: C01's subject)
+                    cps.append(None)
+        for how, d2 in zip(("pickle", "deepcopy", "printed-level-2", "printed-level-3"), cps):
+            if d2 is None:
+                continue
             c = self.run_extract(lambda d2=d2: d2.customized_copy(words=words).extract())
             if c != a:
                 return ["variants-differ", a, [how, c]]
